@@ -266,7 +266,14 @@ def classify_off(case, res):
     bad = [k for k in names if flags.get(k, '1') != '1']
     if bad:
         has_point = any(len(strip_dups(p, et in (0, 1))) == 1 for (jt, et, paths) in gs for p in paths)
-        if cb == 2 and has_point:
+        round_point = any(jt == 2 and len(strip_dups(p, et in (0, 1))) == 1 for (jt, et, paths) in gs for p in paths)
+        if cb and round_point and flags.get('bx') == '1':
+            # same bounding boxes ring by ring, other vertices: the circle of a single point is drawn with the step count the
+            # previous Execute left in steps_per_rad_
+            found.append(('offset.delta-callback.steps-leak-single-point',
+                          'with a DeltaCallback64 installed the single-point (Round join) branch uses the steps_per_rad_ left by the last '
+                          'DoRound -- also across Execute calls: repeated Execute gives the same circle with another vertex count (%s)' % ','.join(bad)))
+        elif cb == 2 and has_point:
             # root cause: norms is not cleared between calls, the callback of a single-point path is shown what is left
             found.append(('offset.delta-callback.stale-normals-single-point',
                           'the DeltaCallback64 of a single-point path is shown the normals left by the previous path -- also across '
@@ -296,7 +303,7 @@ def classify_off(case, res):
                 # shown other normals (mode 2 returns |delta| + 0.5 * path_normals.size())
                 pt = strip_dups(paths[pi], et in (0, 1))[0]
                 near = [r for r in G if r and abs(r[0][0] - pt[0]) < 1000 and abs(r[0][1] - pt[1]) < 1000]
-                same_box = bool(near) and bool(a) and ring_box(near[0]) == ring_box(a[0])
+                same_box = bool(near) and bool(a) and all(abs(x - y) <= 1 for x, y in zip(ring_box(near[0]), ring_box(a[0])))
                 if jt == 2 and same_box:
                     keys_here.append(('offset.delta-callback.steps-leak-single-point',
                                       'with a DeltaCallback64 installed DoRound stores steps_per_rad_/step_sin_/step_cos_ per vertex; a single-point '
@@ -921,6 +928,8 @@ def decide_case(ctx, exe, case, origin=''):
 def replay(ctx, path):
     d = json.load(open(path))
     case = d.get('replay', d)
+    ctx.sample(dict(replayed=os.path.basename(path), kind=case.get('kind'), line=str(case.get('line', ''))[:300]))
+    ctx.cov['rule'] = 'replay of one recorded case'
     if case.get('kind') in ('proof', 'tables', 'build'):
         run(ctx)
         return
